@@ -389,30 +389,39 @@ def check(prop, tier):
 
 
 def selftest_det(n):
-    """run n seeds per engine: worker mode vs. one fresh process per seed; two chunkings; rel and san"""
+    """per engine and build variant: every seed's trace hash must be the same (a) in one long worker process,
+    (b) in many short worker processes (other predecessors, other chunking, 16 at a time), (c) alone in a fresh process"""
+    from concurrent.futures import ThreadPoolExecutor
+    import random
     bad = 0
+    seen = set()
     for variant in ("rel", "san"):
         exe = build(variant)
-        for prop, spec in JOBS.items():
-            for job in spec["jobs"][:1]:
-                if job["variant"] != variant: continue
-                ra, rb = Result(), Result()
-                base = 4242
-                run_chunks(exe, job, base, n, ra, time.time() + 3600, chunk=max(1, n // 3))
-                run_chunks(exe, job, base, n, rb, time.time() + 3600, chunk=7)
-                # per-seed hashes are not kept in Result; compare via a dedicated pass
-                ha = subprocess.run([exe, "run", job["engine"], str(base), "0", str(n), "--cfg", job.get("cfg", "")], stdout=subprocess.PIPE, text=True).stdout
-                h1 = {l.split()[1]: l.split()[2] for l in ha.splitlines() if l.startswith("END ")}
-                mism = 0
-                import random
-                rnd = random.Random(1)
-                for seed in rnd.sample(sorted(h1), min(60, len(h1))):
-                    r = sh([exe, "one", job["engine"], seed, "--cfg", job.get("cfg", "")])
-                    hh = [l.split()[2] for l in r.stdout.splitlines() if l.startswith("END ")]
-                    if not hh or hh[0] != h1[seed]: mism += 1
-                ok = (ra.runs == rb.runs and ra.hashes_nontrivial == rb.hashes_nontrivial and mism == 0)
-                print("det %s %s/%s: runs %d/%d nontrivial-hash sets equal=%s fresh-process mismatches=%d" % (variant, prop, job["engine"], ra.runs, rb.runs, ra.hashes_nontrivial == rb.hashes_nontrivial, mism))
-                if not ok: bad += 1
+        for prop, spec in sorted(JOBS.items()):
+            job = spec["jobs"][0]
+            key = (job["engine"], job.get("cfg", ""), variant)
+            if key in seen: continue
+            seen.add(key)
+            base = 4242
+            nn = n if variant == "rel" else max(100, n // 4)
+
+            def hashes(i0, i1):
+                r = sh([exe, "run", job["engine"], str(base), str(i0), str(i1), "--cfg", job.get("cfg", "")])
+                return {l.split()[1]: l.split()[2] for l in r.stdout.splitlines() if l.startswith("END ")}
+            a = hashes(0, nn)
+            b = {}
+            with ThreadPoolExecutor(NCPU) as ex:
+                for d in ex.map(lambda i0: hashes(i0, min(nn, i0 + 7)), range(0, nn, 7)): b.update(d)
+            mism = sum(1 for k in a if b.get(k) != a[k]) + abs(len(a) - len(b))
+            rnd = random.Random(1)
+            fresh = 0
+            for seed in rnd.sample(sorted(a), min(40, len(a))):
+                r = sh([exe, "one", job["engine"], seed, "--cfg", job.get("cfg", "")])
+                hh = [l.split()[2] for l in r.stdout.splitlines() if l.startswith("END ")]
+                if not hh or hh[0] != a[seed]: fresh += 1
+            print("det %s %-10s %-22s seeds=%d chunked-mismatches=%d fresh-process-mismatches=%d" % (variant, job["engine"], job.get("cfg", ""), len(a), mism, fresh))
+            if mism or fresh or len(a) != nn: bad += 1
+    print("determinism selftest:", "FAILED" if bad else "ok")
     return 2 if bad else 0
 
 
